@@ -109,6 +109,27 @@ def build(tier="quick", seed=0):
     pack.add(Obligation("C04.iter.step[record]", lambda tier: prove_paths("C04.iter.step[record]", with_cut(th_record), judge_record, lambda m_, p: {"x": model_value(m_, x), "s": model_value(m_, sv)}, allow_raise=None),
                         replay=lambda w: {"call": "c04_roundtrip", "args": {"x": w.get("x") or 0, "s": w.get("s") or ""}}, functions=FU, mode="invariant (loop cut after one iteration, arbitrary registry and following bytes)"))
 
+    def th_marker():
+        """a record of a type without fields of its own (only the reserved fields): a complete frame like any other"""
+        M = it.call(RD, ["c04/marker", []], {})
+        Do = it.call(RD, ["c04/marker", list(OTHER)], {})
+        r = it.call(M, [], {"_source": SStr(sv)})
+        tail = sym_tail(it)
+        fp, rd = reader_at_loop_head(it, st, frame_of(it, pk, r) + [tail], registry(M, Do))
+        out, end = run_iter(rd)
+        return r, out, end, fp.remaining() == [tail], [isinstance(o, PObj) and it.getattr_(o, "_desc") is M for o in out]
+
+    def judge_marker(p):
+        if p.kind == "raise":
+            return exc_name(p) in ("UnicodeEncodeError", "error"), f"harness raised {exc_text(p)}"
+        r, out, end, at_boundary, desc_ok = p.value
+        if end != "cut" or len(out) != 1 or not at_boundary or not all(desc_ok):
+            return False, f"a complete frame of a record type without fields: yielded {len(out)} object(s), ended with {end if isinstance(end, str) else end[:2]}, at the next frame boundary: {at_boundary}"
+        return same_record(it, r, out[0], ["_source", "_classification", "_generated", "_version"])
+
+    pack.add(Obligation("C04.iter.step[record of a type without fields]", lambda tier: prove_paths("C04.iter.step[record of a type without fields]", with_cut(th_marker), judge_marker, lambda m_, p: {"s": model_value(m_, sv)}, allow_raise=None),
+                        replay=lambda w: {"call": "c04_roundtrip", "args": {"s": w.get("s") or "", "marker": True}}, functions=FU, mode="invariant (loop cut after one iteration, arbitrary registry and following bytes)"))
+
     def th_unknown():
         D, Do = two_descs()
         r = it.call(D, [], {"n": 5, "s": "7"})
